@@ -41,6 +41,19 @@
 (*   - Rhi + D <= T (closed expiry) resp. < T (open): a live entry is      *)
 (*     refreshed before it runs out                                        *)
 (*   - at most MaxEvents Start/GracefulStop/Crash events                   *)
+(*   - environment fault: a Publish call fails (transient Redis error): the  *)
+(*     call returns an error and the message reaches nobody; at most        *)
+(*     MaxFails such failures, afterwards the pubsub works again.  While a   *)
+(*     node's publishes fail its entries may run out everywhere (its own    *)
+(*     list included), so the settle time of the convergence invariants is  *)
+(*     counted from the last Start/Stop/Crash/failed publish.               *)
+(*   Backoff = FALSE: the node keeps the refresh period it asked the clock   *)
+(*     for (what the code does).  Backoff = TRUE: an implementation may      *)
+(*     stretch its period while publishing fails (slow[n]: the period it     *)
+(*     currently asks for is outside the envelope Rlo..Rhi; the ticker then  *)
+(*     fires at any time >= Rlo after the previous firing), but the first    *)
+(*     successful publish must bring the period back into the envelope; the  *)
+(*     settle time then counts from that publish.                            *)
 (*                                                                         *)
 (* Closed: boundary convention at the expiry instant (C18 does not fix it; *)
 (* MapWithTTL keeps the item at now = expiry, Closed = TRUE).              *)
@@ -52,6 +65,8 @@ CONSTANTS Addr,       \* record: instance id -> address token
           T,          \* PeerEntryTimeout in ticks
           D,          \* maximal delivery delay in ticks
           MaxEvents,  \* bound on membership events
+          MaxFails,   \* bound on failed Publish calls
+          Backoff,    \* TRUE: the refresh period may be stretched while publishes fail
           Closed,     \* TRUE: entry still listed at now = expiry
           ObserveCb,  \* TRUE: the projection carries the callback firings
           TrackQuiet, \* TRUE: count the ticks since the last membership event (needed by the
@@ -59,9 +74,9 @@ CONSTANTS Addr,       \* record: instance id -> address token
                       \*   multiply the states: the same bounds are model-checked with TRUE)
           UnitMs      \* milliseconds per tick (passed to the harness)
 
-VARIABLES status, ent, hashed, hashIds, sincePub, fl, quiet, events, fired, act
+VARIABLES status, ent, hashed, hashIds, sincePub, fl, quiet, events, fails, slow, fired, act
 
-vars == <<status, ent, hashed, hashIds, sincePub, fl, quiet, events, fired, act>>
+vars == <<status, ent, hashed, hashIds, sincePub, fl, quiet, events, fails, slow, fired, act>>
 
 Nodes == DOMAIN Addr
 Kinds == {"R", "U"}
@@ -90,9 +105,10 @@ Abs == [ status     |-> status,
                                           THEN [addrSet |-> PeerAddrs(n), len |-> PeerCount(n)]
                                           ELSE [addrSet |-> {}, len |-> 0]],
          pendingSet |-> {[to |-> x[1], from |-> x[2], kind |-> x[3]] : x \in InFlight},
+         offSet     |-> {n \in Nodes : slow[n]},   \* nodes whose requested refresh period is outside Rlo..Rhi
          cbSet      |-> IF ObserveCb THEN fired ELSE {} ]
 Hid == [ ent |-> ent, hashed |-> hashed, hashIds |-> hashIds, sincePub |-> sincePub,
-         fl |-> fl, quiet |-> quiet, events |-> events, fired |-> fired ]
+         fl |-> fl, quiet |-> quiet, events |-> events, fails |-> fails, slow |-> slow, fired |-> fired ]
 
 NoEnt == [m \in Nodes |-> Gone]
 NoMsg == [m \in Nodes |-> [k \in Kinds |-> -1]]
@@ -105,6 +121,8 @@ Init == /\ status = [n \in Nodes |-> "new"]
         /\ fl = [n \in Nodes |-> NoMsg]
         /\ quiet = 0
         /\ events = 0
+        /\ fails = 0
+        /\ slow = [n \in Nodes |-> FALSE]
         /\ fired = {}
         /\ act = [name |-> "Init"]
 
@@ -120,18 +138,35 @@ Start(n) ==
   /\ quiet' = 0
   /\ events' = events + 1
   /\ fired' = {}
-  /\ UNCHANGED <<hashed, hashIds, fl>>
+  /\ UNCHANGED <<hashed, hashIds, fl, fails, slow>>
   /\ act' = [name |-> "Start", n |-> n]
+
+TickerMayFire(n) == /\ status[n] = "up"
+                    /\ \/ sincePub[n] \in Gaps[n]
+                       \/ slow[n] /\ sincePub[n] >= Rlo
 
 \* the ticker case of the Ready goroutine: publish R<address>,<id> to every subscriber (incl. itself)
 PublishTick(n) ==
-  /\ status[n] = "up"
-  /\ sincePub[n] \in Gaps[n]
+  /\ TickerMayFire(n)
   /\ fl' = [r \in Nodes |-> IF status[r] = "up" THEN [fl[r] EXCEPT ![n]["R"] = 0] ELSE fl[r]]
   /\ sincePub' = [sincePub EXCEPT ![n] = 0]
+  /\ slow' = [slow EXCEPT ![n] = FALSE]           \* recovered: the period is back in the envelope
+  /\ quiet' = IF slow[n] THEN 0 ELSE quiet
   /\ fired' = {}
-  /\ UNCHANGED <<status, ent, hashed, hashIds, quiet, events>>
+  /\ UNCHANGED <<status, ent, hashed, hashIds, events, fails>>
   /\ act' = [name |-> "PublishTick", n |-> n]
+
+\* the same ticker case, but Publish returns an error: nobody receives anything
+PublishFail(n) ==
+  /\ TickerMayFire(n)
+  /\ fails < MaxFails
+  /\ fails' = fails + 1
+  /\ sincePub' = [sincePub EXCEPT ![n] = 0]
+  /\ \E b \in (IF Backoff THEN BOOLEAN ELSE {FALSE}) : slow' = [slow EXCEPT ![n] = slow[n] \/ b]
+  /\ quiet' = 0
+  /\ fired' = {}
+  /\ UNCHANGED <<status, ent, hashed, hashIds, fl, events>>
+  /\ act' = [name |-> "PublishFail", n |-> n]
 
 \* listen(): one message handled by subscriber r; then checkHash()
 Deliver(r, m, k) ==
@@ -143,7 +178,7 @@ Deliver(r, m, k) ==
      IN /\ hashed' = [hashed EXCEPT ![r] = TRUE]
         /\ hashIds' = [hashIds EXCEPT ![r] = ids]
         /\ fired' = IF changed THEN {r} ELSE {}
-  /\ UNCHANGED <<status, sincePub, quiet, events>>
+  /\ UNCHANGED <<status, sincePub, quiet, events, fails, slow>>
   /\ act' = [name |-> "Deliver", to |-> r, from |-> m, kind |-> k]
 
 \* the process is gone: its state is no longer observed, nothing reaches it any more
@@ -153,6 +188,7 @@ Leave(n, how) ==
   /\ hashed' = [hashed EXCEPT ![n] = FALSE]
   /\ hashIds' = [hashIds EXCEPT ![n] = {}]
   /\ sincePub' = [sincePub EXCEPT ![n] = 0]
+  /\ slow' = [slow EXCEPT ![n] = FALSE]
   /\ quiet' = 0
   /\ events' = events + 1
   /\ fired' = {}
@@ -164,7 +200,18 @@ GracefulStop(n) ==
   /\ Leave(n, "stopped")
   /\ fl' = [r \in Nodes |-> IF r = n THEN NoMsg
                             ELSE IF status[r] = "up" THEN [fl[r] EXCEPT ![n]["U"] = 0] ELSE fl[r]]
+  /\ UNCHANGED fails
   /\ act' = [name |-> "GracefulStop", n |-> n]
+
+\* the same, but the Publish of the unregister fails: the others only forget n by expiry
+GracefulStopFail(n) ==
+  /\ status[n] = "up"
+  /\ events < MaxEvents
+  /\ fails < MaxFails
+  /\ Leave(n, "stopped")
+  /\ fl' = [fl EXCEPT ![n] = NoMsg]
+  /\ fails' = fails + 1
+  /\ act' = [name |-> "GracefulStopFail", n |-> n]
 
 \* the process dies: no unregister; what it published before is still delivered to the others
 Crash(n) ==
@@ -172,22 +219,23 @@ Crash(n) ==
   /\ events < MaxEvents
   /\ Leave(n, "crashed")
   /\ fl' = [fl EXCEPT ![n] = NoMsg]
+  /\ UNCHANGED fails
   /\ act' = [name |-> "Crash", n |-> n]
 
 Dec(x) == IF x <= Gone THEN Gone ELSE x - 1
 \* one tick of the shared clock; blocked while a delivery or a ticker firing is overdue
 Advance ==
   /\ \A x \in InFlight : fl[x[1]][x[2]][x[3]] < D
-  /\ \A n \in Up : sincePub[n] < SetMax(Gaps[n])
+  /\ \A n \in Up : slow[n] \/ sincePub[n] < SetMax(Gaps[n])
   /\ ent' = [n \in Nodes |-> [m \in Nodes |-> Dec(ent[n][m])]]
   /\ fl' = [r \in Nodes |-> [m \in Nodes |-> [k \in Kinds |-> IF fl[r][m][k] >= 0 THEN fl[r][m][k] + 1 ELSE -1]]]
-  /\ sincePub' = [n \in Nodes |-> IF status[n] = "up" THEN sincePub[n] + 1 ELSE 0]
-  /\ quiet' = IF TrackQuiet /\ quiet < Bound THEN quiet + 1 ELSE quiet
+  /\ sincePub' = [n \in Nodes |-> IF status[n] = "up" THEN (IF sincePub[n] < Rhi THEN sincePub[n] + 1 ELSE Rhi) ELSE 0]
+  /\ quiet' = IF TrackQuiet /\ quiet < Bound /\ (\A n \in Up : ~slow[n]) THEN quiet + 1 ELSE quiet  \* settling starts at recovery
   /\ fired' = {}
-  /\ UNCHANGED <<status, hashed, hashIds, events>>
+  /\ UNCHANGED <<status, hashed, hashIds, events, fails, slow>>
   /\ act' = [name |-> "Advance"]
 
-Next == \/ \E n \in Nodes : Start(n) \/ PublishTick(n) \/ GracefulStop(n) \/ Crash(n)
+Next == \/ \E n \in Nodes : Start(n) \/ PublishTick(n) \/ PublishFail(n) \/ GracefulStop(n) \/ GracefulStopFail(n) \/ Crash(n)
         \/ \E r \in Nodes, m \in Nodes, k \in Kinds : Deliver(r, m, k)
         \/ Advance
 
@@ -207,6 +255,8 @@ TypeOK == /\ status \in [Nodes -> {"new", "up", "stopped", "crashed"}]
           /\ fl \in [Nodes -> [Nodes -> [Kinds -> -1 .. D]]]
           /\ quiet \in 0 .. Bound
           /\ events \in 0 .. MaxEvents
+          /\ fails \in 0 .. MaxFails
+          /\ slow \in [Nodes -> BOOLEAN]
           /\ fired \subseteq Nodes
 
 Agreed == \A n \in Up : Vis(n) = Up
@@ -218,7 +268,9 @@ Converged == quiet >= Bound => Agreed
 LearnsLive == quiet >= Rhi + D + 1 => \A n \in Up : Up \subseteq Vis(n)
 ForgetsDead == quiet >= T + D + 1 => \A n \in Up : Vis(n) \subseteq Up
 \* a running node always lists itself, so GetPeers never needs its fallback
-SelfListed == \A n \in Up : n \in Vis(n)
+SelfListed == fails = 0 => \A n \in Up : n \in Vis(n)
+\* after recovery nobody is left with a stretched refresh period
+PeriodRestored == quiet >= 1 => \A n \in Up : ~slow[n]
 \* no duplicate address once the dead are forgotten
 NoDuplicateAddr == quiet >= T + D + 1 => \A n \in Up : \A a, b \in Vis(n) : Addr[a] = Addr[b] => a = b
 \* nothing in flight to or from a node that never started, nothing to a node that left
@@ -240,10 +292,10 @@ EventuallyAgreed == <>[]Agreed
 HashCatchesUp == \A n \in Nodes : [](status[n] = "up" => <>(status[n] # "up" \/ (hashed[n] /\ hashIds[n] = Vis(n))))
 
 Params == [addr |-> Addr, gaps |-> Gaps, T |-> T, D |-> D, rlo |-> Rlo, rhi |-> Rhi, unitMs |-> UnitMs,
-           closed |-> Closed, observeCb |-> ObserveCb]
+           closed |-> Closed, observeCb |-> ObserveCb, backoff |-> Backoff]
 ASSUME PrintT(ToJson([params |-> Params]))
 Dump == PrintT(ToJson([fa |-> act.name, act |-> act', fabs |-> Abs, fhid |-> Hid, tabs |-> Abs', thid |-> Hid']))
-View == <<status, ent, hashed, hashIds, sincePub, fl, quiet, events, fired>>
+View == <<status, ent, hashed, hashIds, sincePub, fl, quiet, events, fails, slow, fired>>
 
 \* constant values for the configurations
 Addr2 == [a1 |-> "A", b1 |-> "B"]
